@@ -232,3 +232,25 @@ Proof.
            V_min_GEN (fun s p H => V_min_decode _ _ H) RM_ell V_min_add (fun p q Vp Vq => V_min_add _ _ Vp (V_neg _ Vq)) V_neg V_min_double
            (fun p V => V) (fun p k V => V_min_scalar_mul p k V)).
 Qed.
+
+(* small ring facts used by Props/C06.v, proved over an abstract field *)
+Section RingFacts.
+  Context {AF : AField}.
+  Add Field Freach : Ffield.
+  Lemma curve_from_x2_gen (a d y2 den di : F) : den = sub a (mul y2 d) -> mul di den = one ->
+    add (mul a (mul di (sub one y2))) y2 = add one (mul (mul d (mul di (sub one y2))) y2).
+  Proof.
+    intros -> H.
+    assert (E : mul (sub a (mul y2 d)) (mul di (sub one y2)) = sub one y2).
+    { transitivity (mul (mul di (sub a (mul y2 d))) (sub one y2)); [ring|]. rewrite H. ring. }
+    transitivity (add (mul (sub a (mul y2 d)) (mul di (sub one y2))) (add y2 (mul (mul d (mul di (sub one y2))) y2))); [ring|].
+    rewrite E. ring.
+  Qed.
+  Lemma mul_zero_zero_gen : mul (zero : F) zero = zero. Proof. ring. Qed.
+  Lemma mul_one_r_eq_gen (x : F) : mul x one = x. Proof. ring. Qed.
+  Lemma opp_sq_gen (x : F) : mul (opp x) (opp x) = mul x x. Proof. ring. Qed.
+End RingFacts.
+Definition curve_from_x2 := @curve_from_x2_gen FqF.
+Definition mul_zero_zero := @mul_zero_zero_gen FqF.
+Definition mul_one_r_eq := @mul_one_r_eq_gen FqF.
+Definition opp_sq := @opp_sq_gen FqF.
